@@ -157,15 +157,29 @@ Definition protocol_error (st : cstate) (id : Z) : cstate * list effect :=
 
 Definition or_drop (e : list effect) : list effect := match e with [] => [Drop] | _ => e end.
 
+(* ---- reqres.go: parseInboundFragment for a call req, as far as the reader goroutine runs it:
+   flags, callReq.read, checksum type (errUnknownChecksumType), checksum bytes, rbuf.Err().
+   The chunks behind the checksum are NOT parsed here but by the goroutine that reads the
+   arguments (recvAndParseNextFragment; FragWire.parse_frag_payload models both steps together).
+   Result: (code, checksum type); code 0 ok, 11 typed.ErrEOF, 14 unknown checksum type. ---- *)
+Definition parse_inbound_fragment (payload : list Z) : Z * Z :=
+  let '(flags, r0) := r_u8 (rb payload) in
+  let r1 := snd (r_callreq r0) in
+  if rerr r1 then (11, 0) else
+  let '(ct, r2) := r_u8 r1 in
+  if ct >=? c_checksumCount then (14, ct) else
+  let '(ck, r3) := r_bytes (Z.to_nat (ChecksumSize ct)) r2 in
+  if rerr r3 then (11, ct) else (0, ct).
+
 (* ---- inbound.go: handleCallReq ---- *)
 Definition handle_call_req (st : cstate) (id : Z) (payload : list Z) : cstate * list effect :=
   let s := cs_state st in
   if s =? c_connectionActive then
-    let '(code, f) := parse_frag_payload c_messageTypeCallReq payload in
+    let '(code, ct) := parse_inbound_fragment payload in
     if negb (code =? 0) then (st, [Drop])                         (* "Couldn't decode initial fragment." *)
     else if cs_stopped st || (match mx_lookup id (cs_in st) with Some _ => true | None => false end)
     then protocol_error st id                                     (* errMexSetShutdown / errDuplicateMex *)
-    else match ck_new (f_ctype f) with
+    else match ck_new ct with
          | None => (st, [Panic 2])
          | Some _ => (set_in ((id, mx_new) :: cs_in st) st, [Dispatch id])
          end
@@ -232,14 +246,15 @@ Fixpoint read_frames (fuel : nat) (st : cstate) (stream : list Z) : cstate * lis
 
 (* ---- specification side: which frames are well-formed AND legal in the current state.  For
    the types whose body the reader goroutine does not look at (continuations, call res, ping,
-   cancel) well-formedness is a matter of the header alone; their bodies are checked by the
-   goroutine that consumes the exchange (Proofs/PeerInputP.v: parsed_fragment_no_panic). ---- *)
+   cancel) well-formedness is a matter of the header alone, and of a call req the reader checks
+   what precedes the argument chunks; bodies and chunks are checked by the goroutine that
+   consumes the exchange (Proofs/PeerInputP.v: parsed_fragment_no_panic). ---- *)
 Definition has (id : Z) (m : exmap) : bool := match mx_lookup id m with Some _ => true | None => false end.
 
 Definition frame_legal (st : cstate) (mt id : Z) (payload : list Z) : bool :=
   if mt =? c_messageTypeCallReq then
     (cs_state st =? c_connectionActive) && negb (cs_stopped st) && negb (has id (cs_in st))
-    && (fst (parse_frag_payload c_messageTypeCallReq payload) =? 0)
+    && (fst (parse_inbound_fragment payload) =? 0)
   else if mt =? c_messageTypeCallReqContinue then has id (cs_in st)
   else if (mt =? c_messageTypeCallRes) || (mt =? c_messageTypeCallResContinue) || (mt =? c_messageTypePingRes) then has id (cs_out st)
   else if mt =? c_messageTypePingReq then cs_state st =? c_connectionActive
@@ -271,7 +286,8 @@ Definition is_panic (e : effect) : bool := match e with Panic _ => true | _ => f
      op 2 id                     the application began an outbound call with message id [id]
    output per op: neffects effect* snapshot, effects in the order sends, close, dispatch, deliver,
    cancel (Drop only when alone); after the first op that stops the exchanges only [-1] follows
-   (what happens from then on is asynchronous: exchanges expire, the network is closed).
+   (what happens from then on is asynchronous: exchanges expire, the network is closed); the
+   run also ends when the connection reaches Closed gracefully (the network is closed then).
    [stalled] = 0: the writer goroutine drains sendCh between ops (room is reset);
    [volatile]: the frame's own id is left out of the snapshot (the dispatched goroutine may
    already have failed and removed it).
@@ -325,10 +341,13 @@ Fixpoint run_ops (fuel : nat) (room0 : Z) (stalled : bool) (st : cstate) (l : li
           let ce := canon_effects es in
           let own := if bz vol then Some (unbe (firstn 4 (skipn 4 hdr))) else None in
           put_list enc_effect ce ++
-          (if cs_stopped st3 then [-1] else enc_snapshot room0 own st3 ++ run_ops f room0 stalled st3 r2)
+          (if cs_stopped st3 then [-1]
+           else enc_snapshot room0 own st3 ++
+                (if cs_state st3 =? c_connectionClosed then [] else run_ops f room0 stalled st3 r2))
       | 1 :: r =>
           let st1 := conn_close st in
-          [0] ++ enc_snapshot room0 None st1 ++ run_ops f room0 stalled st1 r
+          [0] ++ enc_snapshot room0 None st1 ++
+          (if cs_state st1 =? c_connectionClosed then [] else run_ops f room0 stalled st1 r)
       | 2 :: id :: r =>
           let st1 := set_out ((id, mx_new) :: cs_out st) st in
           [0] ++ enc_snapshot room0 None st1 ++ run_ops f room0 stalled st1 r
